@@ -336,7 +336,8 @@ func init() {
 					var sc []byte
 					switch k := r.Intn(10); {
 					case k < 7:
-						sc = c14Instances(r, false)[r.Intn(len(insts))].s
+						fresh := c14Instances(r, c.Thorough)
+						sc = fresh[r.Intn(len(fresh))].s
 					case k < 8:
 						sc = insts[(i+int(n))%len(insts)].s
 					case k < 9:
